@@ -5,6 +5,7 @@ import (
 	"encoding/json"
 	"fmt"
 	"io"
+	"math/big"
 	"reflect"
 	"strings"
 	"unsafe"
@@ -356,6 +357,9 @@ func genTplGraph(r *vh.Rng) *tplGraph {
 		if r.Chance(0.04) {
 			return n // undeclared
 		}
+		if r.Chance(0.05) {
+			return -1 // a JSON null where a declaration is expected (below an xpath_dynamic)
+		}
 		if n == 0 {
 			return n
 		}
@@ -388,6 +392,10 @@ func (g *tplGraph) schema() []byte {
 	body := func(refs []int) interface{} {
 		ob := map[string]interface{}{"k": map[string]interface{}{"const": "v"}}
 		for j, t := range refs {
+			if t < 0 {
+				ob[fmt.Sprintf("r%d", j)] = map[string]interface{}{"xpath_dynamic": map[string]interface{}{"array": []interface{}{nil}}}
+				continue
+			}
 			ob[fmt.Sprintf("r%d", j)] = map[string]interface{}{"template": g.nameOf(t)}
 		}
 		return map[string]interface{}{"object": ob}
@@ -403,7 +411,11 @@ func (g *tplGraph) coq() string {
 	refs := func(rs []int) string {
 		var xs []string
 		for _, t := range rs {
-			xs = append(xs, vh.CoqNat(t))
+			if t < 0 {
+				xs = append(xs, "None")
+			} else {
+				xs = append(xs, "(Some "+vh.CoqNat(t)+")")
+			}
 		}
 		return vh.CoqList(xs)
 	}
@@ -538,6 +550,68 @@ func correspondence(r *vh.Rng, sum *vh.Summary, cw *vh.CaseWriter, n int) {
 		sum.Hist(fmt.Sprintf("pure:templates-accepted=%v", o.SchemaAccepted))
 		cw.Add(fmt.Sprintf("CTemplates %s %s", g.coq(), vh.CoqBool(o.SchemaAccepted)),
 			map[string]interface{}{"kind": "templates", "schema": string(sch), "accepted": o.SchemaAccepted, "err": o.SchemaErr})
+	}
+}
+
+// ---- integer literals of rows / by_rows ---------------------------------------------------------
+
+var intLitPool = []string{"1", "2", "3", "0", "-1", "7", "100", "9223372036854775807", "9223372036854775808", "-9223372036854775809", "100000000000000000000",
+	"1.0", "2.0", "0.0", "1e0", "1e1", "1E2", "1e30", "5e-1", "1.5", "-1.0", "-0", "-0.0", "1e400", "10e-1", "0.1e1", "3.00", "2e+0", "1e-400", "4294967296", "2147483648"}
+
+func intLitSchema(fmtIdx int, lit string) []byte {
+	fo := map[string]interface{}{"FINAL_OUTPUT": map[string]interface{}{"object": map[string]interface{}{"a": map[string]interface{}{"xpath": "a"}}}}
+	switch fmtIdx {
+	case 0:
+		return render(map[string]interface{}{"parser_settings": settings("fixed-length"), "transform_declarations": fo,
+			"file_declaration": map[string]interface{}{"envelopes": []interface{}{map[string]interface{}{"by_rows": num(lit),
+				"columns": []interface{}{map[string]interface{}{"name": "a", "start_pos": num("1"), "length": num("1")}}}}}})
+	case 1:
+		return render(map[string]interface{}{"parser_settings": settings("csv2"), "transform_declarations": fo,
+			"file_declaration": map[string]interface{}{"delimiter": ",", "records": []interface{}{map[string]interface{}{"rows": num(lit)}}}})
+	}
+	return render(map[string]interface{}{"parser_settings": settings("fixedlength2"), "transform_declarations": fo,
+		"file_declaration": map[string]interface{}{"envelopes": []interface{}{map[string]interface{}{"rows": num(lit)}}}})
+}
+
+// litFacts: is the value an integer, which, and is the text plain digits with an optional minus.
+func litFacts(lit string) (integral bool, value string, plain bool) {
+	q, ok := new(big.Rat).SetString(lit)
+	if !ok {
+		return false, "0", false
+	}
+	plain = true
+	for i, c := range lit {
+		if !(c >= '0' && c <= '9') && !(i == 0 && c == '-') {
+			plain = false
+		}
+	}
+	if q.IsInt() {
+		return true, q.Num().String(), plain
+	}
+	return false, "0", plain
+}
+
+func correspondenceIntLits(r *vh.Rng, sum *vh.Summary, cw *vh.CaseWriter, n int) {
+	for i := 0; i < n; i++ {
+		fi := r.Pick(3)
+		lit := intLitPool[r.Pick(len(intLitPool))]
+		if r.Chance(0.2) {
+			lit = fmt.Sprint(r.Between(-3, 50))
+		}
+		if len(lit) > 30 || strings.Contains(lit, "400") {
+			// big.Rat of 1e400 is fine but keep the Coq literal small: use 1e40 instead
+			lit = strings.Replace(lit, "400", "40", 1)
+		}
+		sch := intLitSchema(fi, lit)
+		o, _ := ExecSchema(sch, nil, watchdog)
+		if o.Fail != "" {
+			sum.Fail("NewSchema "+o.Fail+" on an integer-literal schema", mkCase(sch, nil), o)
+			continue
+		}
+		integral, value, plain := litFacts(lit)
+		sum.Hist(fmt.Sprintf("pure:intlit plain=%v integral=%v accepted=%v", plain, integral, o.SchemaAccepted))
+		cw.Add(fmt.Sprintf("CIntLit %s (mkLit %s (%s)%%Z %s) %s", vh.CoqN(fi), vh.CoqBool(integral), value, vh.CoqBool(plain), vh.CoqBool(o.SchemaAccepted)),
+			map[string]interface{}{"kind": "intlit", "format": fi, "literal": lit, "accepted": o.SchemaAccepted, "err": o.SchemaErr, "schema": string(sch)})
 	}
 }
 
